@@ -18,7 +18,7 @@ import (
 )
 
 func init() {
-	register("C20", "sessions with a capturing logging.Logger at all four levels: random printable passwords (8-32 bytes, also ones beginning with PASS, containing spaces, colons, %-verbs) x negotiation on/off x tracking on/off x {normal session with traffic, server closes at once, dial error, TLS handshake failure}; no record (format, any argument, or the rendered text) may contain the password (Spec.Register.occurs, evaluated by the driver), twin runs with same-length passwords must log identically, and the text logged for each outgoing line is compared with the model's logOf; non-trivial = session logged the masked PASS line; distinct by (password, scenario)", c20)
+	register("C20", "sessions with a capturing logging.Logger at all four levels: random printable passwords (8-32 bytes, also ones beginning with PASS, containing spaces, colons, %-verbs) x negotiation on/off x tracking on/off x {normal session with traffic, server closes at once, dial error, TLS handshake failure, the 1st..4th write failing (so the failure lands on CAP LS / PASS / NICK / USER)}; no record (format, any argument, or the rendered text) may contain the password (Spec.Register.occurs, evaluated by the driver), twin runs with same-length passwords must log identically, and the text logged for each outgoing line is compared with the model's logOf; non-trivial = session logged the masked PASS line; distinct by (password, scenario)", c20)
 }
 
 type capLogger struct {
@@ -96,6 +96,25 @@ func c20Session(pass string, capNeg, track bool, scenario int) (*capLogger, []st
 		}
 		wire = sess.srv.Lines()
 		sess.close()
+	case 4, 5, 6, 7: // the (scenario-3)-th write fails: with a password set this hits CAP LS / PASS / NICK / USER in turn
+		url, conns := memconn.Listen()
+		memconn.PresetFailWrite(url, scenario-3)
+		cfg := client.NewConfig("me")
+		cfg.Server, cfg.Proxy, cfg.Flood, cfg.PingFreq = "irc.test", url, true, 0
+		mod(cfg)
+		conn := client.Client(cfg)
+		pre(conn)
+		disc := make(chan struct{}, 1)
+		conn.HandleFunc(client.DISCONNECTED, func(*client.Conn, *client.Line) { select { case disc <- struct{}{}: default: } })
+		if conn.Connect() == nil {
+			sc := <-conns
+			select {
+			case <-disc:
+			case <-time.After(2 * time.Second):
+				conn.Close()
+			}
+			wire = sc.Lines()
+		}
 	case 2: // dial error
 		url, _ := memconn.Listen()
 		memconn.FailDial(url, errors.New("connection refused"))
@@ -142,8 +161,8 @@ func c20(c *Ctx) {
 	n := c.Pick(60, 600)
 	for i := 0; i < n; i++ {
 		pass := genPassword(c)
-		capNeg, track, scenario := c.R.Bool(), c.R.Bool(), c.R.N(4)
-		if c.R.P(1, 2) {
+		capNeg, track, scenario := c.R.Bool(), c.R.Bool(), c.R.N(8)
+		if c.R.P(1, 3) {
 			scenario = 0
 		}
 		lg, wire := c20Session(pass, capNeg, track, scenario)
